@@ -910,8 +910,138 @@ def deep_unbalanced_rows(tier):
     return rows
 
 
+class Prefix(object):
+    """expected message: starts with this text, line breaks rendered"""
+    def __init__(self, text):
+        self.text = text
+
+
+_OPT_ZOO = None
+
+
+def opt_zoo():
+    """graders for the rows below: every kind of callable in scope; author-side option strings (brackets, delimiters, messages,
+    variable names) that contain { } % \\ and end up in error messages.  name -> (mode, factory(debug))"""
+    global _OPT_ZOO
+    if _OPT_ZOO is not None:
+        return _OPT_ZOO
+    import numpy as np
+    from mitxgraders import (FormulaGrader, NumericalGrader, MatrixGrader, SumGrader, IntervalGrader, SingleListGrader, ListGrader,
+                             StringGrader, RandomFunction)
+    from mitxgraders.helpers.calc import specify_domain
+
+    @specify_domain(input_shapes=[1, 1])
+    def dom2(x, y):
+        return x * y
+
+    @specify_domain(input_shapes=[[2], [2]], display_name='dotp')
+    def dotp(u, v):
+        return u * v
+    plain = {'h': lambda x: x, 'h2': lambda x, y: x + y, 'dom2': dom2}
+    rnd = {'rf': RandomFunction(), 'rf2': RandomFunction(input_dim=2), 'rf3': RandomFunction(input_dim=3, output_dim=2),
+           'sf': [np.sin, np.cos]}
+    both = dict(plain, **rnd)
+    Z = {
+        'Opt/formula-funcs': (ITEM, lambda d: FormulaGrader(answers='1', variables=['x'], user_functions=both, debug=d)),
+        'Opt/numerical-funcs': (ITEM, lambda d: NumericalGrader(answers='1', user_functions=plain, debug=d)),
+        'Opt/matrix-funcs': (ITEM, lambda d: MatrixGrader(answers='1', variables=['x'], user_functions=dict(both, dotp=dotp),
+                                                          max_array_dim=2, debug=d)),
+        'Opt/sum-funcs': (BOTH, lambda d: SumGrader(answers={'lower': '1', 'upper': '3', 'summand': 'n', 'summation_variable': 'n'},
+                                                    input_positions={'summand': 1}, user_functions=both, debug=d)),
+        'Opt/singlelist-funcs': (ITEM, lambda d: SingleListGrader(answers=['1', '2'], delimiter=';',
+                                                                  subgrader=FormulaGrader(user_functions=both), debug=d)),
+        'Opt/list-funcs': (LIST, lambda d: ListGrader(answers=['1', '2'], subgraders=FormulaGrader(user_functions=both), ordered=True,
+                                                      debug=d)),
+        'Opt/string-msg': (ITEM, lambda d: StringGrader(answers='12', validation_pattern=r'\d+',
+                                                        invalid_msg='Use {digits} only, 100% {0} \\ please', debug=d)),
+        'Opt/formula-names': (ITEM, lambda d: FormulaGrader(answers='x', variables=['x', 'a_{1}', 'T_{ab}'], debug=d)),
+    }
+    for i, (ob, cb) in enumerate(BRACKET_SETS):
+        Z['Opt/interval-%d' % i] = (ITEM, lambda d, ob=ob, cb=cb: IntervalGrader(
+            answers=ob[0] + '1,2' + cb[0], opening_brackets=ob, closing_brackets=cb, debug=d))
+        Z['Opt/interval-%d/singlelist' % i] = (ITEM, lambda d, ob=ob, cb=cb: SingleListGrader(
+            answers=[ob[0] + '1,2' + cb[0], ob[0] + '3,4' + cb[0]], delimiter=';', ordered=True,
+            subgrader=IntervalGrader(opening_brackets=ob, closing_brackets=cb), debug=d))
+        Z['Opt/interval-%d/list' % i] = (LIST, lambda d, ob=ob, cb=cb: ListGrader(
+            answers=[ob[0] + '1,2' + cb[0], ob[0] + '3,4' + cb[0]], ordered=True,
+            subgraders=IntervalGrader(opening_brackets=ob, closing_brackets=cb), debug=d))
+    for i, dl in enumerate(DELIMITERS):
+        Z['Opt/delimiter-%d' % i] = (ITEM, lambda d, dl=dl: SingleListGrader(answers=['a', 'b'], subgrader=StringGrader(), delimiter=dl,
+                                                                            length_error=True, debug=d))
+    _OPT_ZOO = Z
+    return Z
+
+
+BRACKET_SETS = [('[(', ')]'), ('([{', ')]}'), ('{', '}'), ('[(<{', '])>}'), ('%(', '%)'), ('\\[', '\\]'), ('{[', '}]'), ('(', ')')]
+DELIMITERS = ['{', '}', '%', '\\', ';', '|']
+ARITY = {'sin': 1, 'cos': 1, 'sqrt': 1, 'exp': 1, 'abs': 1, 'fact': 1, 're': 1, 'arctan2': 2, 'kronecker': 2, 'ln': 1, 'arcsinh': 1}
+ARITY_USER = {'h': 1, 'h2': 2, 'dom2': 2, 'rf': 1, 'rf2': 2, 'rf3': 3, 'sf': 1}
+ARITY_MATRIX = {'det': 1, 'norm': 1, 'trans': 1, 'cross': 2, 'dotp': 2, 'adj': 1}
+
+
+def option_rows(tier):
+    """expected outcomes computed from the configuration by the documented rules (not recorded from the implementation):
+    a call with the wrong number of arguments is an ArgumentError naming the function and both counts, whatever kind of callable it
+    is; a wrongly shaped argument to a domain-checked function is an ArgumentShapeError; a bracket outside the configured set is an
+    InvalidInput listing the configured options; the list-length error quotes the configured delimiter; author messages and
+    subscripted names appear verbatim"""
+    rows = []
+    ARG = 'Wrong number of arguments passed to %s(...): Expected %d inputs, but received %d.'
+    counts = (1, 2, 3) if tier == 'quick' else (1, 2, 3, 4, 6)
+
+    def arity_rows(name, emb, table, arg='1'):
+        for fn, k in sorted(table.items()):
+            for m in counts:
+                if m != k:
+                    rows.append((name, emb('%s(%s)' % (fn, ','.join([arg] * m))), 'ArgumentError', ARG % (fn, k, m)))
+            rows.append((name, emb('%s()' % fn), 'UnableToParse', Prefix('Invalid Input: Could not parse ')))
+    ident = lambda t: t
+    arity_rows('Opt/formula-funcs', ident, dict(ARITY, **ARITY_USER))
+    arity_rows('Opt/numerical-funcs', ident, dict(ARITY, h=1, h2=2, dom2=2))
+    arity_rows('Opt/matrix-funcs', ident, dict(ARITY_USER, **ARITY_MATRIX), arg='[1,2]')
+    arity_rows('Opt/matrix-funcs', ident, ARITY)
+    arity_rows('Opt/sum-funcs', ident, ARITY_USER)
+    arity_rows('Opt/singlelist-funcs', lambda t: '1;' + t, ARITY_USER)
+    arity_rows('Opt/list-funcs', lambda t: ['list', ['1', t]], ARITY_USER)
+    for fn in ('min', 'max'):
+        rows.append(('Opt/formula-funcs', '%s(1)' % fn, 'ArgumentError',
+                     'Wrong number of arguments passed to %s(...): Expected at least 2 inputs, but received 1.' % fn))
+    SHAPE = 'There was an error evaluating function %s(...)<br/>'
+    for text, fn in [('sin([1,2])', 'sin'), ('sqrt([[1,2],[3,4]])', 'sqrt'), ('arctan2([1,2],1)', 'arctan2'), ('det(1)', 'det'),
+                     ('det([1,2])', 'det'), ('dotp(1,2)', 'dotp'), ('dotp([1,2],[1,2,3])', 'dotp'), ('dom2([1,2],1)', 'dom2'),
+                     ('cross([1,2],[1,2])', 'cross')]:
+        rows.append(('Opt/matrix-funcs', text, 'ArgumentShapeError', Prefix(SHAPE % fn)))
+    # brackets
+    for i, (ob, cb) in enumerate(BRACKET_SETS):
+        opts_o = ', '.join("'%s'" % c for c in ob)
+        opts_c = ', '.join("'%s'" % c for c in cb)
+        for bad in '<|{[(%\\a}':
+            if bad not in ob:
+                msg = "Invalid opening bracket: '%s'. Valid options are: %s." % (bad, opts_o)
+                rows.append(('Opt/interval-%d' % i, bad + '1,2' + cb[0], 'InvalidInput', msg))
+                if tier != 'quick' or bad in '<{':
+                    rows.append(('Opt/interval-%d/singlelist' % i, ob[0] + '1,2' + cb[0] + ';' + bad + '3,4' + cb[0], 'InvalidInput', msg))
+                    rows.append(('Opt/interval-%d/list' % i, ['list', [bad + '1,2' + cb[0], ob[0] + '3,4' + cb[0]]], 'InvalidInput', msg))
+        for bad in '>|}])%\\a{':
+            if bad not in cb:
+                msg = "Invalid closing bracket: '%s'. Valid options are: %s." % (bad, opts_c)
+                rows.append(('Opt/interval-%d' % i, ob[0] + '1,2' + bad, 'InvalidInput', msg))
+                if tier != 'quick' or bad in '>}':
+                    rows.append(('Opt/interval-%d/list' % i, ['list', [ob[0] + '1,2' + cb[0], ob[0] + '3,4' + bad]], 'InvalidInput', msg))
+    # delimiters
+    for i, dl in enumerate(DELIMITERS):
+        for text, n in (('a', 1), ('a' + dl + 'b' + dl + 'c', 3), ('', 1)):
+            rows.append(('Opt/delimiter-%d' % i, text, 'MissingInput',
+                         'List length error: Expected 2 terms in the list, but received %d. Separate items with character "%s"' % (n, dl)))
+        rows.append(('Opt/delimiter-%d' % i, 'a' + dl + ' ', 'MissingInput', 'List error: Empty entry detected in position 2'))
+    rows.append(('Opt/string-msg', 'ab', 'InvalidInput', 'Use {digits} only, 100% {0} \\ please'))
+    for v in ('b_{1}', 'a_{2}', 'T_{a}', 'x_{1}^{2}'):
+        rows.append(('Opt/formula-names', v, 'UndefinedVariable', "Invalid Input: '%s' not permitted in answer as a variable" % v))
+    return rows
+
+
 def anticipated_rows(tier):
-    return ANTICIPATED + deep_unbalanced_rows(tier)
+    return ANTICIPATED + deep_unbalanced_rows(tier) + option_rows(tier)
 
 
 _BRACE_ZOO = None
@@ -1023,6 +1153,9 @@ def run_braces(ctx, res, rng):
 
 
 def zoo_entry(name):
+    if name.startswith('Opt/'):
+        mode, f = opt_zoo()[name]
+        return mode, f, False
     if name.startswith('Brace/'):
         for n, f, names, wrap in brace_zoo():
             if n == name:
@@ -1051,6 +1184,10 @@ def check_anticipated(row):
             return 'generic error text is %r' % got[:200]
         if not names_submission(got, texts):
             return 'generic error does not name the submission %r verbatim: %r' % ([t[:80] for t in texts], got[:300])
+    elif isinstance(msg, Prefix):
+        got = str(val)
+        if not got.startswith(msg.text) or '\n' in got:
+            return 'expected a message starting with %r, got %r' % (msg.text, got[:300])
     elif msg is UNBALANCED:
         got = str(val)
         if not (got.startswith('Invalid Input:') and got.endswith('</code>') and '<mark>' in got and '\n' not in got):
@@ -2274,7 +2411,9 @@ def _run(ctx):
                                   'kind': 'anticipated', 'row': ri, 'tier': ctx['tier'], 'grader': row[0],
                                   'input': spec if len(repr(spec)) < 300 else repr(spec)[:120] + '... (%d characters)' % len(repr(spec)),
                                   'what': what})
-    res.distribution['anticipated_rows_deep_unbalanced'] = len(rows) - len(ANTICIPATED)
+    res.distribution['anticipated_rows_total'] = len(rows)
+    res.distribution['anticipated_rows_deep_unbalanced'] = len(deep_unbalanced_rows(ctx['tier']))
+    res.distribution['anticipated_rows_callables_and_options'] = len(option_rows(ctx['tier']))
     res.distribution['anticipated_rows'] = len(ANTICIPATED)
     phases = {}
     t0 = time.time()
